@@ -99,7 +99,7 @@ def crash_worlds(tier, seed):
     out = []
     for i in range(nworlds):
         rng = Rng(seed, "c11", i)
-        w = W.gen_small_world(rng) if i % 2 else W.gen_fault_world(rng)
+        w = W.gen_world_two_devices(rng) if i % 4 == 3 else (W.gen_small_world(rng) if i % 2 else W.gen_fault_world(rng))
         w.threads = 1
         base = W.execute(w)
         _, m = count_ops(base)
@@ -140,6 +140,10 @@ def meta_worlds(tier, seed):
         w = W.gen_world_many_candidates(Rng(seed, "c17-many", k), k)
         w.group = grp
         w.export_only = True       # the candidate sets differ on purpose: only the export subtree is compared
+        out.append(w)
+    for i in range(6 if tier == "quick" else 60):
+        w = W.gen_world_two_devices(Rng(seed, "c17-dev", i))   # a candidate on another device with the same inode number
+        w.group = None
         out.append(w)
     for i in range(n):
         rng = Rng(seed, "c17", i)
@@ -206,7 +210,9 @@ PROPS = {
                 worlds=lambda t, s: [W.gen_world_misfiled(Rng(s, "c01-misfiled", i)) for i in range(60 if t == "quick" else 1200)]
                                     + worlds_default(t, s, "c01", 400, 8000, tweak_threads)),
     "C02": dict(module="TB.Props.C02", theorems=["C02_search_sound", "C02_search_complete", "C02_piece"], clauses=["c02-"],
-                worlds=lambda t, s: [W.gen_world_many_candidates(Rng(s, "c02-many", k), k) for k in (2, 260)] + worlds_default(t, s, "c02", 400, 8000, tweak_threads)),
+                worlds=lambda t, s: [W.gen_world_many_candidates(Rng(s, "c02-many", k), k) for k in (2, 260)]
+                                    + [W.gen_world_two_devices(Rng(s, "c02-dev", i)) for i in range(8 if t == "quick" else 80)]
+                                    + worlds_default(t, s, "c02", 400, 8000, tweak_threads)),
     "C03": dict(module="TB.Props.C03", theorems=["C03_confined", "C03_readonly", "C03_plain"], clauses=["c03-"], worlds=lambda t, s: worlds_default(t, s, "c03", 300, 6000, tweak_threads),
                 unit_stream=lambda t, s: unit.load_stream("quick", s)[: 3000 if t == "quick" else 8000]),
     "C04": dict(module="TB.Props.C04", theorems=["C04_export_first", "C04_skip", "C04b_untouched"], clauses=["c04-"], worlds=lambda t, s: worlds_default(t, s, "c04", 300, 6000, tweak_threads)),
